@@ -206,13 +206,15 @@ pub fn c10_ev_with_fields(e: &Expr) -> Option<Value> {
 pub fn c10_has_identity_pattern(e: &Expr) -> bool {
     match e {
         Expr::Binary { op, left, right } => {
+            // the identity arms look at the operands AFTER their own folding: `(0 + 0) + s` is `0 + s` by the time the arm is tried
+            let (fl, fr) = (__vpv_fold_expr((**left).clone()), __vpv_fold_expr((**right).clone()));
             let lit = |x: &Expr, v: i64| matches!(x, Expr::Int(k) if *k == v);
             let is_int_lit = |x: &Expr| matches!(x, Expr::Int(_));
             let here = match op {
-                BinOp::Mul => (lit(right, 0) || lit(right, 1)) && !is_int_lit(left) || (lit(left, 0) || lit(left, 1)) && !is_int_lit(right),
-                BinOp::Add => lit(right, 0) && !is_int_lit(left) || lit(left, 0) && !is_int_lit(right),
-                BinOp::Sub => lit(right, 0) && !is_int_lit(left),
-                BinOp::Div => lit(right, 1) && !is_int_lit(left),
+                BinOp::Mul => (lit(&fr, 0) || lit(&fr, 1)) && !is_int_lit(&fl) || (lit(&fl, 0) || lit(&fl, 1)) && !is_int_lit(&fr),
+                BinOp::Add => lit(&fr, 0) && !is_int_lit(&fl) || lit(&fl, 0) && !is_int_lit(&fr),
+                BinOp::Sub => lit(&fr, 0) && !is_int_lit(&fl),
+                BinOp::Div => lit(&fr, 1) && !is_int_lit(&fl),
                 _ => false,
             };
             here || c10_has_identity_pattern(left) || c10_has_identity_pattern(right)
